@@ -262,6 +262,7 @@ func TestVerifC15ServerTLS(t *testing.T) {
 	vOffloadingShared(t, ops, impl, validator)
 	vInbound(t, ops, impl)
 	vOutbound(t, ops, impl)
+	vMixed(t, ops, impl)
 	serverCfg, err := newServerTLSConfig(Config{serverCert: &serverCert, trustStore: pool, pkiValidator: validator})
 	if err != nil {
 		t.Fatal(err)
